@@ -306,6 +306,7 @@ class Program:
             self.by_qname.setdefault(b.qname, []).append(b)
         # functions outside the reference inventory (helpers extracted by a later refactoring) are transparent
         import inline
+        self.renamed = {}
         self.inlined = inline.apply(self, VERIF) if os.environ.get("SDLINT_NO_INLINE") != "1" else []
 
     def _qname(self, b):
